@@ -140,7 +140,7 @@ func fieldsAssigned(fn *ssa.Function, isObj func(v ssa.Value) bool, st *types.St
 			// they are the object's fields when the struct is embedded
 			if sub := structOfPtr(fa.Type()); sub != nil {
 				for i := 0; i < sub.NumFields(); i++ {
-					got[sub.Field(i).Name()] = true
+					got[fieldVarName(sub.Field(i))] = true
 				}
 			}
 			return
@@ -169,15 +169,15 @@ func fieldsAssigned(fn *ssa.Function, isObj func(v ssa.Value) bool, st *types.St
 				}
 			}
 			for i := 0; i < st.NumFields(); i++ {
-				if !kept[st.Field(i).Name()] {
-					got[st.Field(i).Name()] = true
+				if !kept[fieldVarName(st.Field(i))] {
+					got[fieldVarName(st.Field(i))] = true
 				}
 			}
 		}
 	})
 	// method calls x.F.Reset() count as a reset of F
 	allInstrs(fn, func(in ssa.Instruction) {
-		if call, ok := in.(*ssa.Call); ok && call.Call.StaticCallee() != nil && (call.Call.StaticCallee().Name() == "Reset" || call.Call.StaticCallee().Name() == "Clear") && len(call.Call.Args) == 1 {
+		if call, ok := in.(*ssa.Call); ok && call.Call.StaticCallee() != nil && (fnName(call.Call.StaticCallee()) == "Reset" || fnName(call.Call.StaticCallee()) == "Clear") && len(call.Call.Args) == 1 {
 			if fa, ok := call.Call.Args[0].(*ssa.FieldAddr); ok && isObj(fa.X) {
 				got[fieldName(fa)] = true
 			}
@@ -238,7 +238,7 @@ func fieldsAssigned(fn *ssa.Function, isObj func(v ssa.Value) bool, st *types.St
 		sub := fieldsAssigned(g, func(v ssa.Value) bool { return len(g.Params) > 0 && v == ssa.Value(g.Params[0]) }, ft)
 		delete(fieldsAssignedBusy, g)
 		for i := 0; i < ft.NumFields(); i++ {
-			if !sub[ft.Field(i).Name()] {
+			if !sub[fieldVarName(ft.Field(i))] {
 				return
 			}
 		}
@@ -272,7 +272,7 @@ func checkC15(c *Ctx) {
 			gets, puts := false, false
 			allInstrs(f, func(in ssa.Instruction) {
 				if call, ok := in.(*ssa.Call); ok && call.Call.StaticCallee() != nil && len(call.Call.Args) > 0 && call.Call.Args[0] == ssa.Value(pi.Global) {
-					switch call.Call.StaticCallee().Name() {
+					switch fnName(call.Call.StaticCallee()) {
 					case "Get":
 						gets = true
 					case "Put":
@@ -334,7 +334,7 @@ func checkC15(c *Ctx) {
 			return strings.Join(s, ",")
 		}
 		for i := 0; i < pi.Struct.NumFields(); i++ {
-			fn := pi.Struct.Field(i).Name()
+			fn := fieldVarName(pi.Struct.Field(i))
 			inAllInits := len(initSets) > 0
 			for _, s := range initSets {
 				if !s[fn] {
@@ -792,7 +792,7 @@ func poolPairing(c *Ctx, rule string) {
 			return true
 		}
 		if f := cc.StaticCallee(); f != nil && f.Name() == "Put" && len(cc.Args) > 0 {
-			if g, ok := cc.Args[0].(*ssa.Global); ok && strings.HasSuffix(g.Name(), "Pool") {
+			if g, ok := cc.Args[0].(*ssa.Global); ok && isSyncPool(g) {
 				return true
 			}
 		}
@@ -1030,4 +1030,18 @@ func sameAddr(a, b ssa.Value) bool {
 		return fa.Field == fb.Field && (fa.X == fb.X || sameVal(fa.X, fb.X) || path(fa.X) == path(fb.X))
 	}
 	return false
+}
+
+// isSyncPool: the package-level variable is a sync.Pool (whatever it is called).
+func isSyncPool(g *ssa.Global) bool {
+	pt, ok := g.Type().(*types.Pointer)
+	return ok && types.TypeString(pt.Elem(), nil) == "sync.Pool"
+}
+
+// fieldVarName: the name the field had on the pinned tree (see anchors.go), else its own.
+func fieldVarName(v *types.Var) string {
+	if c, ok := canonFieldOf[v]; ok {
+		return c
+	}
+	return v.Name()
 }
